@@ -21,11 +21,16 @@ import JsonV.Lemmas.EncInvCompose
 import JsonV.Lemmas.EncInvTree
 import JsonV.Lemmas.EncInvState
 import JsonV.Lemmas.EncInvFloor
+import JsonV.Lemmas.EncInvSound
+import JsonV.Lemmas.EncInvGrammar
+import JsonV.Lemmas.EncInvInst
+import JsonV.Lemmas.NumFloat
 
 namespace JsonV.Props.C02
 open JsonV JsonV.Model JsonV.Spec.ValidJson JsonV.Model.EncInv
 open JsonV.Lemmas.EncInvL JsonV.Lemmas.EncInvCompose JsonV.Lemmas.EncInvTree JsonV.Lemmas.EncInvState
-open JsonV.Lemmas.EncInvFloor
+open JsonV.Lemmas.EncInvFloor JsonV.Lemmas.EncInvSound JsonV.Lemmas.EncInvGrammar JsonV.Lemmas.EncInvInst
+open JsonV.Spec.Grammar JsonV.Model.Quote
 
 /-! ### the raw fragments are values (arshal_default.go:143, 479, 578, 829, 1509; arshal_any.go:125, 241) -/
 
@@ -49,8 +54,8 @@ theorem int_digits_sign (i : Int) :
 
 /-- `null`, `true`, `false`. -/
 theorem lit_valid (o : Opt) (d : Nat) (q : Quoter o) :
-    validAt o d (Frag.null.bytes q) = true ∧ validAt o d ((Frag.bool true).bytes q) = true ∧
-    validAt o d ((Frag.bool false).bytes q) = true :=
+    validAt o d (Frag.null.bytes q.quote) = true ∧ validAt o d ((Frag.bool true).bytes q.quote) = true ∧
+    validAt o d ((Frag.bool false).bytes q.quote) = true :=
   ⟨validAt_null o d, validAt_true o d, validAt_false o d⟩
 
 /-- `{}` and `[]` are values wherever one more container level is allowed … -/
@@ -64,7 +69,7 @@ theorem quoted_valid (o : Opt) (d : Nat) (q : Quoter o) (s : Bytes) : validAt o 
 
 /-- Every fragment is a value at every depth that leaves room for it. -/
 theorem frag_valid (o : Opt) (q : Quoter o) (f : Frag) (d : Nat) (hd : d + f.depth ≤ o.maxDepth) :
-    validAt o d (f.bytes q) = true :=
+    validAt o d (f.bytes q.quote) = true :=
   JsonV.Lemmas.EncInvTree.frag_valid o q f d hd
 
 /-! ### composition, for lists of any length -/
@@ -78,7 +83,7 @@ theorem array_compose (o : Opt) (d : Nat) (xs : List Bytes) (hd : d < o.maxDepth
 allowed — the names are pairwise distinct as JSON strings (`nameKey` = the decoded name). -/
 theorem object_compose (o : Opt) (d : Nat) (ms : List (Bytes × Bytes)) (hd : d < o.maxDepth)
     (h : ∀ m ∈ ms, validString o m.1 = true ∧ validAt o (d + 1) m.2 = true)
-    (hk : o.noDup = true → (ms.map fun m => nameKey m.1).Nodup) : validAt o d (obj ms) = true :=
+    (hk : o.noDup = true → (ms.map fun m => o.key m.1).Nodup) : validAt o d (obj ms) = true :=
   object_compose' o d ms hd h hk
 
 /-- Nesting costs exactly one level: the children are judged at depth `d + 1`, the container is valid when
@@ -99,19 +104,108 @@ theorem value_then_delimiter (o : Opt) (d : Nat) (x r : Bytes) (hx : validAt o d
 /-- **Skeleton of `marshal_valid`.**  For every tree (any width, any nesting) built from the raw fragments,
 with distinct names per object when duplicates are not allowed and nesting within the limit,
 the rendered bytes are exactly one valid JSON value. -/
-theorem render_valid (o : Opt) (q : Quoter o) (t : OutTree) (hw : t.WellFormed q)
-    (hd : t.depth ≤ o.maxDepth) : validValue o (t.render q) = true := by
+theorem render_valid (o : Opt) (q : Quoter o) (t : OutTree) (hw : t.WellFormed o q.quote)
+    (hd : t.depth ≤ o.maxDepth) : validValue o (t.render q.quote) = true := by
   have := render_valid_aux o q t 0 hw (by omega)
   simpa [validAt, validValue] using this
 
-/-- The full C02 statement for the default (no user code, no whitespace) marshal paths: whenever the L3
-marshal model `marshal` succeeds, its output is the rendering of a well-formed tree of fragments within the
-depth limit — hence valid by `render_valid`.  NOT proved: it needs the L3 model of the reflection code
-(DESIGN §5 C02 `Model/Arshal.lean`); the harness validates the conclusion on the real code instead. -/
-def marshal_valid_full : Prop :=
-  ∀ (Val : Type) (marshal : Opt → Val → Option Bytes) (o : Opt) (q : Quoter o) (v : Val) (out : Bytes),
-    marshal o v = some out →
-    ∃ t : OutTree, t.WellFormed q ∧ t.depth ≤ o.maxDepth ∧ out = t.render q
+/-! ### no private notion of validity: the grammar of slice C01 (Spec/Grammar.lean) -/
+
+/-- **The recogniser is sound for RFC 8259 / RFC 7493.**  Whatever `validValue` accepts is a `JText` of slice C01's
+grammar: strings in the selected UTF-8 mode (`strict`), member names pairwise different under `o.key` unless
+duplicates are allowed, nesting at most `o.maxDepth`.  (`validValue` accepts no insignificant whitespace, so it
+is an under-approximation; it is sound, which is the direction every theorem of this file needs.) -/
+theorem validValue_sound (o : Opt) (b : Bytes) (h : validValue o b = true) :
+    JText (gopts o) o.maxDepth o.key b :=
+  JsonV.Lemmas.EncInvSound.validValue_sound o b h
+
+/-- the same at any depth, for values -/
+theorem validAt_sound (o : Opt) (d : Nat) (b : Bytes) (h : validAt o d b = true) :
+    JValue (gopts o) o.maxDepth o.key d b :=
+  JsonV.Lemmas.EncInvSound.validAt_sound o d b h
+
+/-- `render_valid` read through `validValue_sound`: with a `Quoter` (law stated on the recogniser), every
+well-formed tree renders to a text of the grammar. -/
+theorem render_valid_text (o : Opt) (q : Quoter o) (t : OutTree) (hw : t.WellFormed o q.quote)
+    (hd : t.depth ≤ o.maxDepth) : JText (gopts o) o.maxDepth o.key (t.render q.quote) :=
+  validValue_sound o _ (render_valid o q t hw hd)
+
+/-- **Every well-formed tree of fragments renders to an RFC 8259 / RFC 7493 text** — stated against the grammar
+alone: the only thing asked of `quote` is that it returns string literals of the grammar. -/
+theorem render_text (o : Opt) (quote : Bytes → Bytes) (hq : ∀ s, JString o.strict (quote s)) (t : OutTree)
+    (hw : t.WellFormed o quote) (hd : t.depth ≤ o.maxDepth) :
+    JText (gopts o) o.maxDepth o.key (t.render quote) :=
+  ⟨[], _, [], jws_nil, render_jvalue o quote hq t 0 hw (by omega), jws_nil, by simp⟩
+
+/-! ### the parameters instantiated with the models proved by slices C11 and C10 -/
+
+/-- Slice C11's model of `jsonwire.AppendQuote` (without EscapeForHTML/JS) returns a strict string literal of
+the grammar for EVERY byte string (ill-formed input comes out as U+FFFD). -/
+theorem quote_is_string (f : QFlags) (hh : f.html = false) (hj : f.js = false) (v : Bool) (s : Bytes) :
+    JString v (appendQuote f s).1 :=
+  appendQuote_jstring f hh hj v s
+
+/-- NOT proved: the same with EscapeForHTML / EscapeForJS (slice C11 has the scanner-acceptance lemma
+`csLoop_quoteLoop` only for the two flags off; `html_safe`/`js_safe` say what is escaped, not that the result
+scans).  Validated by the harness (EscapeForHTML/JS are in every option draw). -/
+def quote_escaped_full : Prop := ∀ (f : QFlags) (v : Bool) (s : Bytes), JString v (appendQuote f s).1
+
+/-- **`render_text` for the modelled AppendQuote, no hypothesis on `quote` left.** -/
+theorem render_text_real (o : Opt) (f : QFlags) (hh : f.html = false) (hj : f.js = false) (t : OutTree)
+    (hw : t.WellFormed o (realQuote f)) (hd : t.depth ≤ o.maxDepth) :
+    JText (gopts o) o.maxDepth o.key (t.render (realQuote f)) :=
+  render_text o (realQuote f) (fun s => quote_is_string f hh hj o.strict s) t hw hd
+
+/-- What `WellFormed` asks of object names, for the modelled AppendQuote and the default key (AppendUnquote): the
+key of a quoted Go string is that string with ill-formed bytes replaced by U+FFFD — so the condition is on the
+Go-side names (what Go map keys / struct field names / `seenIdxs` provide), not on their quoted spellings. -/
+theorem name_key_real (f : QFlags) (n : Bytes) :
+    ({} : Opt).key (realQuote f n) = JsonV.Spec.StringSpec.lossy n :=
+  key_realQuote f n
+
+/-- Slice C10's models of strconv.AppendUint / AppendInt are the functions the fragment model uses, so
+`int_digits_valid`, `uint_digits_valid` and `frag_valid` speak about them. -/
+theorem ints_are_c10 (n : Nat) (i : Int) :
+    JsonV.Model.Number.formatUint n = natDigits n ∧ JsonV.Model.Number.formatInt i = intDigits i :=
+  ⟨formatUint_eq n, formatInt_eq i⟩
+
+/-- … and they are numbers of the grammar. -/
+theorem ints_are_numbers (n : Nat) (i : Int) :
+    JNumber (JsonV.Model.Number.formatUint n) ∧ JNumber (JsonV.Model.Number.formatInt i) := by
+  rw [formatUint_eq, formatInt_eq]; exact ⟨jnumber_natDigits n, jnumber_intDigits i⟩
+
+/-- NOT proved here: floats.  `Frag.num` carries its law; slice C10 proves `isJsonNumber (appendFloat …)` for its own
+recogniser (`float_is_number`), the statement against the grammar (`float_is_JNumber`) is being proved by slice
+num and was not on main when this file was written. -/
+def float_fragment_full : Prop :=
+  ∀ (neg : Bool) (ds : List Nat) (n : Int), JsonV.Lemmas.NumFloat.WFD ds n →
+    JNumber (JsonV.Model.Number.appendFloat neg ds n)
+
+/-! ### what remains between these theorems and C02 -/
+
+/-- A marshal model (bytes out, or failure) EMITS TREES when every successful output is the rendering — with the
+modelled AppendQuote — of a well-formed tree of fragments within the depth limit. -/
+def EmitsTree {Val : Type} (marshal : Opt → QFlags → Val → Option Bytes) :
+    Prop :=
+  ∀ o f v out, marshal o f v = some out →
+    ∃ t : OutTree, t.WellFormed o (realQuote f) ∧ t.depth ≤ o.maxDepth ∧ out = t.render (realQuote f)
+
+/-- Proved: for ANY marshal model that emits trees, a successful output is exactly one RFC 8259 / RFC 7493 text. -/
+theorem marshal_valid_of_emitsTree {Val : Type} (marshal : Opt → QFlags → Val → Option Bytes)
+    (he : EmitsTree marshal) (o : Opt) (f : QFlags) (hh : f.html = false) (hj : f.js = false) (v : Val) (out : Bytes)
+    (h : marshal o f v = some out) : JText (gopts o) o.maxDepth o.key out := by
+  obtain ⟨t, hw, hd, rfl⟩ := he o f v out h
+  exact render_text_real o f hh hj t hw hd
+
+/-- **Precisely what remains unproved for C02 on the default (no user code, no whitespace, no HTML/JS escaping)
+paths:** that the reflection code of arshal_default.go / arshal_any.go / arshal_embedded.go, as a function from
+(options, Go value) to bytes-or-error, emits trees — i.e. that it only ever appends the fragments of
+`Model/EncInv.lean` in the nesting of an `OutTree`, with pairwise different names per object when duplicates
+are not allowed and within the nesting limit.  There is no byte-level Lean model of that code (slice C04's
+`Model/Marshal.lean` models it at the tree level, tied to the code by differential testing), so the statement is
+a predicate on `code`, to be instantiated with a byte-level model of the reflection code once one exists; harness/c02.go validates the conclusion of
+`marshal_valid_of_emitsTree` on the real code for 6·10^4 / 2·10^6 generated programs per run. -/
+def marshal_valid_full {Val : Type} (code : Opt → QFlags → Val → Option Bytes) : Prop := EmitsTree code
 
 /-! ### the exactly-one-value check (arshal_methods.go:221-229, arshal_funcs.go:220-228) -/
 
@@ -202,9 +296,19 @@ example : validValue {} (arr [intDigits (-12), natDigits 0, [0x6e, 0x75, 0x6c, 0
     · exact uint_digits_valid _ _ _
     · exact validAt_null _ _)
 
-example : (OutTree.arr [.atom (.int (-5)), .obj [([0x61], .atom .emptyArr)], .arr []]).WellFormed (trivialQuoter {}) := by
+example : (OutTree.arr [.atom (.int (-5)), .obj [([0x61], .atom .emptyArr)], .arr []]).WellFormed {} (trivialQuoter {}).quote := by
   simp [OutTree.WellFormed, wfList, wfMembers, renderMembers]
 
 example : okFollow [0x2c, 0x31] := okFollow_comma _
+
+-- `render_text_real` applies: a tree with an object is well formed for the modelled AppendQuote (one name: nothing to compare)
+example : (OutTree.arr [.atom (.int (-5)), .obj [([0x61, 0xff], .atom .emptyArr)], .atom (.str [0x22])]).WellFormed {}
+    (realQuote {}) := by
+  simp [OutTree.WellFormed, wfList, wfMembers, renderMembers]
+
+example : JText (gopts {}) 10000 ({} : Opt).key
+    ((OutTree.arr [.atom (.int (-5)), .obj [([0x61, 0xff], .atom .emptyArr)], .atom (.str [0x22])]).render (realQuote {})) :=
+  render_text_real {} {} rfl rfl _ (by simp [OutTree.WellFormed, wfList, wfMembers, renderMembers])
+    (by simp [OutTree.depth, depthList, depthMembers, Frag.depth])
 
 end JsonV.Props.C02
